@@ -590,7 +590,13 @@ pub fn after_client_frame(sim: &mut Sim, c: usize) {
     if let Some(exp) = &expected {
         for (se, (cc, marker, comps, lt)) in &held {
             match exp.get(se) {
-                None => v.push(("C03", "extra_entity", format!("client {c} holds server entity {se:#x} (client {cc:#x}, confirmed {lt}) which was not replicated to it at update tick {u}"))),
+                None => {
+                    v.push(("C03", "extra_entity", format!("client {c} holds server entity {se:#x} (client {cc:#x}, confirmed {lt}) which was not replicated to it at update tick {u}")));
+                    // Replicated at that tick but hidden from this client: losing visibility must remove it.
+                    if sim.snaps.get(&u).map(|s| s.ents.contains_key(se)).unwrap_or(false) {
+                        v.push(("C08", "hidden_entity_kept", format!("client {c} still holds entity {se:#x} at update tick {u} although it was hidden from it at that tick")));
+                    }
+                }
                 Some(sc) => {
                     if !*marker {
                         v.push(("C03", "marker_missing", format!("client {c}: entity {se:#x} -> {cc:#x} has no Replicated marker at update tick {u}")));
@@ -609,6 +615,9 @@ pub fn after_client_frame(sim: &mut Sim, c: usize) {
         for se in exp.keys() {
             if !held.contains_key(se) {
                 v.push(("C03", "missing_entity", format!("client {c} lacks server entity {se:#x} replicated to it at update tick {u}")));
+                if sess.vis.contains_key(se) {
+                    v.push(("C08", "visible_entity_missing", format!("client {c} lacks entity {se:#x} at update tick {u} although it was made visible to it")));
+                }
             }
         }
     }
@@ -925,10 +934,18 @@ pub fn end_of_run(sim: &mut Sim) {
             let want = sim.replicated(e) && sim.visible(c, bits);
             match (want, held.get(&bits)) {
                 (false, None) => {}
-                (false, Some((cc, ..))) => v.push(("C01", "extra_entity", format!("client {c} still holds slot {i} ({bits:#x} -> {cc:#x}) which is not replicated to it"))),
+                (false, Some((cc, ..))) => {
+                    v.push(("C01", "extra_entity", format!("client {c} still holds slot {i} ({bits:#x} -> {cc:#x}) which is not replicated to it")));
+                    if sim.replicated(e) {
+                        v.push(("C08", "hidden_entity_kept", format!("client {c} still holds slot {i} ({bits:#x}) after quiescence although it is hidden from it")));
+                    }
+                }
                 (true, None) => {
                     expected += 1;
                     v.push(("C01", "missing_entity", format!("client {c} lacks slot {i} ({bits:#x}) after quiescence")));
+                    if sess.vis.contains_key(&bits) {
+                        v.push(("C08", "visible_entity_missing", format!("client {c} lacks slot {i} ({bits:#x}) after quiescence although it was made visible to it")));
+                    }
                 }
                 (true, Some((cc, marker, comps, lt))) => {
                     expected += 1;
